@@ -10,6 +10,7 @@ import re
 
 from vlib import Hit, Result, diff_lines, sh
 from props.c14_ls import ls_monitor
+from props.stress_twin import run_twin, twin_replay
 
 try:
     from props import c14_handles
@@ -168,7 +169,21 @@ def run(ctx):
               'extracted model replays it; non-trivial = >=2 threads, >=2 request_stop or a callback plus a request, >=8 steps. '
               'DIFF: generated handle histories (<=12 ops quick) on real stop_source/stop_token vs Model/StopHandles.v, '
               'stop_possible()/stop_requested() of every live handle compared after every step. RUNTIME: pika tasks + OS '
-              'threads, monitors only.')
+              'threads, monitors only. '
+              'STRESS (free-running stress twin, harness/c14_stress.cpp): real concurrency on plain OS threads, no controller, no '
+              'hook installed — per trial a fresh stop_source (one copy per requester), one token, M in 0..5 stop_callbacks '
+              'registered up front (kinds: plain / destroys itself from inside the callback / destroyed by a racing thread), then '
+              'K in 2..4 threads call request_stop() at the same instant (spin barrier, offsets swept over 0..255 spin iterations), '
+              'optionally one thread destroying callbacks, one thread constructing 1..2 more callbacks during the race (and '
+              'possibly destroying them at once), token/source copy+drop churn on the same atomic word; callback bodies spin a swept '
+              'time. Monitors per trial, independent of the model: exactly one request_stop() returned true (two_winners / '
+              'no_winner), stop_requested() true on the calling thread right after every request_stop() and on token / source / fresh '
+              'token afterwards, every callback at most once, every callback that nobody destroyed ran exactly once when all '
+              'request_stop() calls have returned (callback:lost), no callback starting or still running after its destructor '
+              'returned (after_dtor / dtor:returned_during_run), constructor runs the callback when the request was already visible, '
+              'self-deregistration completes, all destructors return (watchdog: crash/hang = hit); forked child; 10 s time box quick '
+              '(~2 M trials on an idle machine), 90 s thorough. It exists because lock-step cannot schedule inside an atomic step '
+              'that a code change split in two (e.g. the request CAS replaced by load + store).')
     ctx.build_pika()
     drv = ctx.build_model('C14', 'ExtractC14.v', 'drv_c14.ml')
     if ctx.replay:
@@ -192,4 +207,8 @@ def run(ctx):
     else:
         r.hits.append(Hit('tie', 'C14:handles:missing', 'tools/props/c14_handles.py not importable', {}))
     run_rt(ctx, r)
+    if not ctx.replay or twin_replay(ctx, 'c14_stress'):
+        hs = ctx.build_harness('c14_stress', 'c14_stress.cpp')
+        run_twin(ctx, r, 'C14', hs, 'c14_stress', 'STS', [], 100000000, 10000 if ctx.tier == 'quick' else 90000,
+                 'stop_source/stop_callback on OS threads', min_trials=100000)
     return r
